@@ -114,6 +114,10 @@ def run(sid, props, tier):
     rc, out = sh("git -C /repo apply %s" % os.path.join(d, "patch.diff"))
     if rc != 0:
         sys.exit("patch does not apply to /repo: " + out)
+    saved = {}
+    for p in props:
+        ev = os.path.join(ROOT, "evidence", p + ".json")
+        saved[ev] = open(ev).read() if os.path.exists(ev) else None
     try:
         for p in props:
             t0 = time.time()
@@ -131,6 +135,11 @@ def run(sid, props, tier):
                 what=what, wall_s=round(time.time() - t0, 1))
             print(sid, p, tier, "exit", rc, "violations", len(viol), what[:1])
     finally:
+        # the evidence files must come from runs on the unchanged tree: put them back
+        for ev, txt in saved.items():
+            if txt is not None:
+                with open(ev, "w") as f:
+                    f.write(txt)
         sh("git -C /repo checkout -- .")
         rc, out = sh("git -C /repo status --porcelain")
         if out.strip():
